@@ -27,6 +27,11 @@ def make(family, rng, tier):
         scn["cfg"]["duration"] = max(scn["cfg"]["duration"], 3.0 / scn["cfg"]["tps"])
         scn["oracles"] = ORACLES
         return scn
+    if family == "steps":
+        scn = sysgen.gen_steps(rng, tier)
+        scn["oracles"] = ORACLES
+        scn["defer"] = ["C04.", "C09.", "C02."]      # let the run go on to what the scheduler does next
+        return scn
     if family == "trace":
         scn = base.via_trace(sysgen.gen(rng, rng.choice(ALGOS) if ALGOS else None, PROP, tier), rng)
         scn["oracles"] = ORACLES
@@ -47,4 +52,5 @@ TIMEOUT_IS_VIOLATION = True
 
 def plan(tier):  # noqa: F811
     return [("sys", 6000 if tier == "quick" else 150000), ("gen", 600 if tier == "quick" else 12000), ("aimD3", 16),
-            ("preempt", 2000 if tier == "quick" else 40000), ("trace", 600 if tier == "quick" else 12000)]
+            ("preempt", 2000 if tier == "quick" else 40000), ("trace", 600 if tier == "quick" else 12000),
+            ("steps", 3000 if tier == "quick" else 40000)]
